@@ -141,7 +141,44 @@ func writeLocals(P *Program, S *SpecSet, verif string) error {
 	if err != nil {
 		return err
 	}
-	return os.WriteFile(localsPath(verif), append(data, '\n'), 0o644)
+	if err := os.WriteFile(localsPath(verif), append(data, '\n'), 0o644); err != nil {
+		return err
+	}
+	// every in-repo function that exists now (functions that appear later are candidates for inlining)
+	var keys []string
+	for _, fn := range P.RepoFns {
+		keys = append(keys, funcKey(fn))
+		for _, an := range fn.AnonFuncs {
+			keys = append(keys, anonKeys(an)...)
+		}
+	}
+	sort.Strings(keys)
+	data, err = json.MarshalIndent(keys, "", " ")
+	if err != nil {
+		return err
+	}
+	return os.WriteFile(filepath.Join(verif, "locks", "functions.json"), append(data, '\n'), 0o644)
+}
+
+func anonKeys(fn *ssa.Function) []string {
+	ks := []string{funcKey(fn)}
+	for _, an := range fn.AnonFuncs {
+		ks = append(ks, anonKeys(an)...)
+	}
+	return ks
+}
+
+func readKnownFns(verif string) map[string]bool {
+	var ks []string
+	data, err := os.ReadFile(filepath.Join(verif, "locks", "functions.json"))
+	if err != nil || json.Unmarshal(data, &ks) != nil || len(ks) == 0 {
+		return nil
+	}
+	m := map[string]bool{}
+	for _, k := range ks {
+		m[k] = true
+	}
+	return m
 }
 
 // aliasesFor: old name (as recorded) -> current name, for variables of fn that were renamed.
